@@ -289,21 +289,30 @@ func (vc *VC) frameObligations(fr *Frame, fc *FuncContract, penv *SpecEnv, rpc s
 // loopEnv builds the environment in which a loop invariant is evaluated.
 func (fr *Frame) loopEnv(li *loopInfo, st *State) *SpecEnv {
 	vc := fr.vc
+	base := fr
+	if fr.extracted {
+		// a loop that was moved into a new function: the invariant was written over the text of the function under verification
+		base = fr.topFrame()
+	}
 	pkgPath := ""
-	if fr.c != nil {
-		pkgPath = fr.c.PkgPath
+	if base.c != nil {
+		pkgPath = base.c.PkgPath
 	}
 	env := vc.newEnv(pkgPath, st)
-	env.old = fr.entry
-	fr.bindParams(env)
-	if fr.c != nil {
-		if sig := vc.g.sigOf(fr.c); sig != nil {
-			for i, p := range fr.fn.Params {
+	env.old = base.entry
+	base.bindParams(env)
+	if base.c != nil {
+		if sig := vc.g.sigOf(base.c); sig != nil {
+			for i, p := range base.fn.Params {
 				if i < len(sig.params) {
-					env.vars[sig.params[i].name] = tv{t: fr.v1(p), ty: p.Type()}
+					env.vars[sig.params[i].name] = tv{t: base.v1(p), ty: p.Type()}
 				}
 			}
 		}
+	}
+	own := map[string]bool{}
+	if fr.extracted {
+		own = fr.bindOwn(env)
 	}
 	for g, gt := range vc.ghostT {
 		env.vars[g] = tv{t: vc.stGet0(st, "$g."+g), ty: gt}
@@ -327,12 +336,16 @@ func (fr *Frame) loopEnv(li *loopInfo, st *State) *SpecEnv {
 		if cellVar[name] {
 			continue
 		}
-		if _, shadow := env.vars[name]; !shadow {
+		if _, shadow := env.vars[name]; !shadow || (fr.extracted && !own[name]) {
 			env.vars[name] = tv{t: fr.v1(v), ty: v.Type()}
+			delete(env.lazy, name)
+			own[name] = true
 		}
 		if old, ok := fr.alias[name]; ok {
-			if _, shadow := env.vars[old]; !shadow {
+			if _, shadow := env.vars[old]; !shadow || (fr.extracted && !own[old]) {
 				env.vars[old] = tv{t: fr.v1(v), ty: v.Type()}
+				delete(env.lazy, old)
+				own[old] = true
 			}
 		}
 	}
@@ -367,12 +380,15 @@ func (fr *Frame) loopEnv(li *loopInfo, st *State) *SpecEnv {
 			}
 			if c != "" {
 				env.vars[c] = tv{t: fr.v1(phi), ty: phi.Type()}
+				own[c] = true
 				if old, ok := fr.alias[c]; ok {
 					env.vars[old] = tv{t: fr.v1(phi), ty: phi.Type()}
+					own[old] = true
 				}
 			}
 		}
 	}
+	fr.callerNames(env, own)
 	// map iterators: #visited = the visited-set of the map range advanced by THIS loop
 	var its []ssa.Value
 	for it := range fr.iterVis {
